@@ -590,6 +590,12 @@ def rule_shift(ctx):
               cl = canon_le(fc) if fc[0] == "cmp" and fc[1] in ("Lt", "LtE", "Gt", "GtE") else None
               if cl is not None and (cl[0] + (c - const_of(c))).is_zero() and cl[1] + const_of(c) <= 0:
                 proved = True        # -(c - c0) <= b  with  b + c0 <= 0   =>   c >= 0
+          if not proved:
+            # ceiling idiom: t * ((x + t - 1) // t) - x >= 0 by the floor lemma (x // t) * t >= x - t + 1
+            from .c10 import apply_floor_lemma, provably_nonneg
+            LB, used = apply_floor_lemma(c, set())
+            if LB is not None and provably_nonneg(LB, set()):
+              proved = True
           seen[key] = seen.get(key, True) and proved
     for (line, ctext), ok in sorted(seen.items()):
       n_sites += 1
